@@ -664,7 +664,7 @@ func (v Value) exportPath(path []*object) interface{} {
 			keyKind := reflect.Invalid
 			elemKind := reflect.Invalid
 			state := 0
-			var t reflect.Type
+			var t, first reflect.Type
 			for index := range length {
 				name := strconv.FormatInt(int64(index), 10)
 				if !obj.hasProperty(name) {
@@ -690,8 +690,11 @@ func (v Value) exportPath(path []*object) interface{} {
 					kind = k
 					keyKind = kk
 					elemKind = ek
+					first = t
 					state = 1
-				} else if state == 1 && (kind != k || keyKind != kk || elemKind != ek) {
+				} else if state == 1 && (kind != k || keyKind != kk || elemKind != ek || first != t) {
+					// Equal kinds are not enough ([][]int64 and [][]string): only
+					// identical types can share a typed slice.
 					state = 2
 				}
 
